@@ -18,9 +18,19 @@ def replay(ctx, ob, inputs):
     wd = os.path.join(ctx.scratch, 'native_' + ob.name.replace('/', '_'))
     os.makedirs(wd, exist_ok=True)
     exe = os.path.join(wd, 'replay')
-    cmd = ['gcc', '-O1', '-g', '-w', '-DVERIF_NATIVE', '-DVERIF_ENTRY=' + ob.entry] + ['-D' + d for d in ob.defines] + \
-          ['-I' + REPO + '/include', '-I' + REPO + '/src', '-I' + VERIF + '/include', '-I' + VERIF + '/spec', '-I' + VERIF + '/harness',
-           os.path.join(VERIF, 'harness', ob.harness), '-o', exe, '-lpthread'] + list(ob.native_libs)
+    # obligations that depend on must-fire rewrites (markers, dispatch macros) are replayed against the scratch mirror
+    # (= working tree + those value-preserving rewrites); all others against /repo itself
+    root = ctx.mirror if ob.rules else REPO
+    inc = ['-include', 'verif_gen/markers.h'] if ob.rules else []
+    hsrc = open(os.path.join(VERIF, 'harness', ob.harness)).read()
+    extra = []
+    if 'VERIF_ENTRY' not in hsrc:       # harness without a replay main of its own: generated one
+        mainc = os.path.join(wd, 'native_main.c')
+        open(mainc, 'w').write('#include <stdio.h>\nvoid %s(void);\nint main(void) { %s(); printf("REPLAY-PASS\\n"); return 0; }\n' % (ob.entry, ob.entry))
+        extra = [mainc]
+    cmd = ['gcc', '-O1', '-g', '-w', '-DVERIF_NATIVE', '-DVERIF_ENTRY=' + ob.entry] + ['-D' + d for d in ob.defines] + inc + \
+          ['-I' + root + '/include', '-I' + root + '/src', '-I' + VERIF + '/include', '-I' + VERIF + '/spec', '-I' + VERIF + '/harness',
+           os.path.join(VERIF, 'harness', ob.harness)] + extra + ['-o', exe, '-lpthread'] + list(ob.native_libs)
     p = subprocess.run(cmd, stdout=subprocess.PIPE, stderr=subprocess.STDOUT)
     if p.returncode != 0:
         return 'error', 'native build failed:\n' + p.stdout.decode()[-2000:]
